@@ -559,8 +559,11 @@ async def _rollback_sessions(ctx, nsession, fails):
 # ---------------------------------------------------------------------------------------------
 
 
-class _InjectedFault(Exception):
-    """What the k-th statement of the request raises (stands for disk full, SQLITE_BUSY, a bug)."""
+import sqlite3 as _sqlite3  # noqa: E402
+
+
+class _InjectedFault(_sqlite3.OperationalError):
+    """What the k-th statement of the request raises: a database error (disk full, SQLITE_BUSY, ...)."""
 
 
 @contextlib.contextmanager
